@@ -21,6 +21,11 @@ def gate_stream(chk):
     failing input of the property."""
     n = 500 if not chk.thorough else 20000
     groups, cases = [], []
+    for ln in C.read_corpus(chk.pid):
+        if ln.startswith("group"):
+            groups.append(None)
+            cases.append(ln)
+            chk.count("gate:corpus")
     for i in range(n):
         g, tg = evalgen.gen_gate_group(chk.rng, i)
         groups.append(g)
@@ -58,8 +63,9 @@ def run(chk, failed):
     cases, tags = [], []
     # corpus first
     for ln in C.read_corpus(chk.pid):
-        cases.append(ln)
-        tags.append(["corpus"])
+        if ln.startswith("calc"):
+            cases.append(ln)
+            tags.append(["corpus"])
     for i in range(n):
         ln, tg = evalgen.gen_calc(chk.rng, i)
         cases.append(ln)
